@@ -89,6 +89,38 @@ def documents(pm: ProgramModel, mb: ModelBuilder) -> dict[str, list[tuple[str, A
     for k in kid_ids:
         gd["features"][k]["optional"] = False
     docs["GlencoeReader"].append(("third-party/group-of-mandatory-children", json.dumps(gd), None))
+    # n-ary terms of a third-party Glencoe document (3, 5 and 6 operands: not powers of two)
+    names6 = ["A", "B", "C", "D", "E", "F"]
+    gr = mb.feature("R")
+    for nm_ in names6:
+        mb.relation(gr, [mb.feature(nm_)], 0, 1)
+
+    def chain(opn: str, ns: list[str]) -> Any:
+        node = n(ns[0])
+        for x in ns[1:]:
+            node = n(o(opn), node, n(x))
+        return node
+    gref = mb.model(gr, [mb.constraint("C1", chain("AND", names6[:3])), mb.constraint("C2", chain("OR", names6[:5])),
+                         mb.constraint("C3", chain("AND", names6))])
+    ft_ = lambda i: {"type": "FeatureTerm", "operands": [f"id{i}"]}  # noqa: E731
+    gdoc = {"id": "m", "name": "m",
+            "features": {"idr": {"name": "R", "type": "FEATURE", "optional": False},
+                         **{f"id{i}": {"name": nm_, "type": "FEATURE", "optional": True} for i, nm_ in enumerate(names6)}},
+            "tree": {"id": "idr", "children": [{"id": f"id{i}"} for i in range(6)]},
+            "constraints": {"C1": {"type": "AndTerm", "operands": [ft_(i) for i in range(3)]},
+                            "C2": {"type": "OrTerm", "operands": [ft_(i) for i in range(5)]},
+                            "C3": {"type": "AndTerm", "operands": [ft_(i) for i in range(6)]}}}
+    docs["GlencoeReader"].append(("third-party/n-ary-terms", json.dumps(gdoc), gref))
+    # a JSON relation of type OPTIONAL / MANDATORY listing several children (accepted as one relation)
+    jdoc = {"name": "m", "features": {"name": "R", "abstract": False, "relations": [
+        {"type": "OPTIONAL", "card_min": 0, "card_max": 1, "children": [
+            {"name": "A", "abstract": False, "relations": [
+                {"type": "MANDATORY", "card_min": 1, "card_max": 1, "children": [{"name": "A1", "abstract": False, "relations": []}]}]},
+            {"name": "B", "abstract": False, "relations": []}]},
+        {"type": "MANDATORY", "card_min": 1, "card_max": 1, "children": [
+            {"name": "C", "abstract": False, "relations": []}, {"name": "D", "abstract": False, "relations": []}]}]},
+        "constraints": []}
+    docs["JSONReader"].append(("third-party/single-kind-relation-with-several-children", json.dumps(jdoc), None))
     # degenerate but parseable third-party documents: a relation without members, a <var/> without text
     docs["XMLReader"].append(("third-party/relation-without-members",
                               b'<feature-model><feature name="R"><setRelation name="r1"><cardinality min="1" max="1"/>'
